@@ -36,6 +36,11 @@ def mkTCon (c : List Char) (v : Option (List Char)) : Except TErr TCon :=
   | some (some k), some t => .ok (.mk k t)
   | some (some _), none => .error .ValueError
 
+/-- truth value of a string or `None` -/
+def truthyOpt : Option (List Char) → Bool
+  | none => false
+  | some s => !s.isEmpty
+
 /-- `range_class.version_class` (the name of the version class of a registered range class; every registered class
 has one: `registry_versionClass` in `Text/VersThm.lean`) -/
 def versionClassOfE (cls : String) : Except TErr String :=
